@@ -6,7 +6,7 @@ for l in open('/verif/properties.jsonl'):
     if d['id']==pid: break
 print(f"""You are helping to evaluate verification tooling by seeding a realistic regression into a Go code base.
 
-Your workspace is a scratch git worktree of the liftbridge repository (a Kafka-style replicated message log on NATS, written in Go) at {wt}. Work ONLY inside {wt}. Do not read or write /verif, /repo or any other directory outside {wt} (the Go module cache is fine). There is no network: run every go command as
+Your workspace is a scratch git worktree of the liftbridge repository (a Kafka-style replicated message log on NATS, written in Go) at {wt}. Work ONLY inside {wt}. Do not read or write /verif, /repo or any other directory outside {wt} (the Go module cache is fine). There is no network, and other jobs on this machine run the same test suites, which bind fixed TCP ports: run tests that start servers (package ./server) in a private network namespace, e.g. unshare -n sh -c 'ip link set lo up; cd {wt} && GOFLAGS=-mod=mod GOPROXY=off go test ...'. Run every go command as
   cd {wt} && GOFLAGS=-mod=mod GOPROXY=off go ...
 
 The property that the code is supposed to satisfy:
